@@ -254,12 +254,10 @@ class Interp:
             self.uf(f'b2r{W}', [BV(W)], 'Real')
             self.pending.append(f'(assert (= (b2r{W} ({f} {dumps(ct)})) {dumps(ct)}))')
             return [f, t]
-        # B: fresh glue constant
-        g = f'vh_glue{self.nglue}'
-        self.nglue += 1
-        self.pending.append(f'(declare-fun {g} () {dumps(BV(W))})')
-        self.pending.append(f'(assert (= ((_ to_fp {w[0]} {w[1]}) {g}) {dumps(ct)}))')
-        return g
+        # B: float -> bits as a function (same float, same bits) with to_fp(f2b(x)) = x at each use
+        f = self.uf(f'f2b{W}', [['_', 'FloatingPoint', str(w[0]), str(w[1])]], BV(W))
+        self.pending.append(f'(assert (= ((_ to_fp {w[0]} {w[1]}) ({f} {dumps(ct)})) {dumps(ct)}))')
+        return [f, t]
 
     def bvarg(self, y, env):
         """rewrite y for use as an argument of a bit-vector operator"""
